@@ -37,3 +37,301 @@ Proof.
     by (apply ideal_N_gt; vm_compute; reflexivity).
   lia.
 Qed.
+
+(* ====================================================================================
+   Refinement: the Table model (TableModel.v) refines the association-list finite map
+   for EVERY hash function.  Generic slot-array facts come from RobinHoodProofs.v.    *)
+From Coq Require Import Permutation.
+From CelloV Require Import RobinHoodProofs.
+
+Section Spec.
+  Variables K V : Type.
+  Variable keq : K -> K -> bool.
+  Hypothesis keq_spec : forall a b, keq a b = true <-> a = b.
+
+  Local Notation a_get := (a_get K V keq).
+  Local Notation a_rem := (a_rem K V keq).
+  Local Notation a_set := (a_set K V keq).
+
+  Lemma keq_refl k : keq k k = true.
+  Proof. apply keq_spec. reflexivity. Qed.
+
+  Lemma keq_false a b : a <> b -> keq a b = false.
+  Proof. intros H. destruct (keq a b) eqn:E; [|reflexivity]. apply keq_spec in E. contradiction. Qed.
+
+  Lemma a_get_none (m : amap K V) k : a_get m k = None <-> ~ In k (map fst m).
+  Proof.
+    induction m as [|[k' v] m IH]; simpl; [tauto|].
+    destruct (keq k' k) eqn:E.
+    - apply keq_spec in E. subst. split; [discriminate|]. intros H. exfalso. apply H. auto.
+    - rewrite IH. split; [|tauto]. intros H [->|H1]; [|tauto]. rewrite keq_refl in E. discriminate.
+  Qed.
+
+  Lemma a_get_some (m : amap K V) k v : NoDup (map fst m) -> (a_get m k = Some v <-> In (k, v) m).
+  Proof.
+    induction m as [|[k' v'] m IH]; simpl; intros Hnd; [split; [discriminate|tauto]|].
+    inversion Hnd as [|? ? Hnin Hnd']; subst.
+    destruct (keq k' k) eqn:E.
+    - apply keq_spec in E. subst k'. split.
+      + intros H. injection H as ->. auto.
+      + intros [H|H]; [congruence|]. exfalso. apply Hnin. apply (in_map fst) in H. exact H.
+    - rewrite (IH Hnd'). split; [auto|]. intros [H|H]; [|exact H]. injection H as -> ->.
+      rewrite keq_refl in E. discriminate.
+  Qed.
+
+  Lemma in_a_rem (m : amap K V) k e : In e (a_rem m k) <-> In e m /\ fst e <> k.
+  Proof.
+    induction m as [|[k' v'] m IH]; simpl; [tauto|].
+    destruct (keq k' k) eqn:E.
+    - apply keq_spec in E. subst k'. rewrite IH. split; [tauto|]. intros [[<-|H] Hne]; [simpl in Hne; congruence|tauto].
+    - simpl. rewrite IH. split; [|tauto]. intros [<-|H]; [|tauto]. split; [auto|]. simpl. intros ->.
+      rewrite keq_refl in E. discriminate.
+  Qed.
+
+  Lemma nodup_a_rem (m : amap K V) k : NoDup (map fst m) -> NoDup (map fst (a_rem m k)).
+  Proof.
+    induction m as [|[k' v'] m IH]; simpl; intros Hnd; [constructor|].
+    inversion Hnd as [|? ? Hnin Hnd']; subst.
+    destruct (keq k' k); [auto|]. simpl. constructor; [|auto].
+    intros Hin. apply Hnin. apply in_map_iff in Hin. destruct Hin as [e [He Hin]].
+    apply in_a_rem in Hin. apply in_map_iff. exists e. tauto.
+  Qed.
+
+  Lemma nodup_a_set (m : amap K V) k v : NoDup (map fst m) -> NoDup (map fst (a_set m k v)).
+  Proof.
+    intros Hnd. unfold TableModel.a_set. simpl. constructor; [|apply nodup_a_rem; assumption].
+    intros Hin. apply in_map_iff in Hin. destruct Hin as [e [He Hin]]. apply in_a_rem in Hin. tauto.
+  Qed.
+
+  Lemma in_a_set (m : amap K V) k v e : In e (a_set m k v) <-> e = (k, v) \/ (In e m /\ fst e <> k).
+  Proof. unfold TableModel.a_set. simpl. rewrite in_a_rem. intuition auto. Qed.
+
+  Lemma nodup_fst_nodup (m : list (K * V)) : NoDup (map fst m) -> NoDup m.
+  Proof. apply NoDup_map_inv. Qed.
+End Spec.
+
+Section TP.
+  Variables K V : Type.
+  Variable keq : K -> K -> bool.
+  Variable hash : K -> N.
+  Variable swap : nat -> nat -> bool.
+  Variable primes : list N.
+  Variables num den : N.
+  Hypothesis keq_spec : forall a b, keq a b = true <-> a = b.
+  (* the repaired rule of Table_Set_Move, `if (j > p)`: Generated.table_swap *)
+  Hypothesis swap_strict : forall j p, swap j p = true -> p < j.
+  Hypothesis swap_ge : forall j p, swap j p = false -> j <= p.
+  (* Table_Ideal_Size always leaves a free slot: ideal_gt for the generated data *)
+  Hypothesis ideal_gt : forall n, n < ideal_size primes num den n.
+
+  Local Notation entry := (entry K V).
+  Local Notation table := (table K V).
+  Local Notation slots := (slots K V).
+  Local Notation nitems := (nitems K V).
+  Local Notation nslots := (nslots K V).
+  Local Notation mkT := (mkT K V).
+  Local Notation home := (home K hash).
+  Local Notation ideal := (ideal primes num den).
+  Local Notation t_iter := (t_iter K V).
+  Local Notation t_len := (t_len K V).
+  Local Notation t_step := (t_step K V keq hash swap primes num den).
+  Local Notation set_move := (set_move K V keq hash swap).
+  Local Notation t_rehash := (t_rehash K V keq hash swap).
+  Local Notation resize_more := (resize_more K V keq hash swap primes num den).
+  Local Notation resize_less := (resize_less K V keq hash swap primes num den).
+  Local Notation t_lookup := (t_lookup K V keq hash).
+  Local Notation set_all := (set_all K V keq hash swap).
+  Local Notation t_assign_from := (t_assign_from K V keq hash swap primes num den).
+  Local Notation t_empty := (t_empty K V primes num den).
+  Local Notation t_run := (t_run K V keq hash swap primes num den).
+  Local Notation spec_step := (spec_step K V keq).
+  Local Notation spec_run := (spec_run K V keq).
+  Local Notation a_get := (a_get K V keq).
+  Local Notation a_rem := (a_rem K V keq).
+  Local Notation a_set := (a_set K V keq).
+  Local Notation Holds := (Holds entry).
+  Local Notation occupied := (occupied entry).
+  Local Notation entries := (entries entry).
+  Local Notation at_ := (at_ entry).
+  Local Notation new_wins := (fun (_ new : entry) => new).
+
+  Lemma swap_le j p : swap j p = true -> p <= j.
+  Proof. intros H. apply swap_strict in H. lia. Qed.
+
+  (* home slot of a key in an array of n slots *)
+  Definition hmn (n : nat) : K -> nat := fun k => home k n.
+
+  Lemma home_lt k n : 0 < n -> hmn n k < n.
+  Proof.
+    intros Hn. unfold hmn, TableModel.home.
+    pose proof (N.mod_lt (hash k) (N.of_nat n) ltac:(lia)). lia.
+  Qed.
+
+  (* the slot array is a well-formed robin-hood array for the current slot count, and
+     nitems counts the occupied slots *)
+  Definition pre_inv (t : table) : Prop :=
+    core K entry fst (hmn (nslots t)) (slots t) /\ nitems t = occupied (slots t).
+  (* ... and there is a free slot (or no slot array at all, after resize(t,0)) *)
+  Definition t_inv (t : table) : Prop :=
+    pre_inv t /\ (nitems t < nslots t \/ nslots t = 0).
+  (* abstraction relation: the table holds exactly the bindings of the map *)
+  Definition R (t : table) (m : amap K V) : Prop :=
+    NoDup (map fst m) /\ forall e, In e (t_iter t) <-> In e m.
+
+  (* nslots t unfolds to @length (tslot K V) _: transport along an equation instead of rewriting *)
+  Lemma core_n n n' (l : list (slot entry)) : n = n' ->
+    core K entry fst (hmn n) l -> core K entry fst (hmn n') l.
+  Proof. intros ->. auto. Qed.
+
+  Lemma iter_holds (t : table) e : In e (t_iter t) <-> Holds (slots t) e.
+  Proof. apply in_entries. Qed.
+
+  Lemma entries_repeat n : entries (repeat None n) = [].
+  Proof. induction n as [|n IH]; [reflexivity|]. simpl repeat. rewrite entries_cons. exact IH. Qed.
+
+  Lemma pre_inv_fresh n : pre_inv (mkT (repeat None n) 0).
+  Proof.
+    split; [apply core_repeat|]. simpl. rewrite occupied_repeat. reflexivity.
+  Qed.
+
+  Lemma inv_uq t : pre_inv t -> UQ K entry fst (slots t).
+  Proof. intros [[_ [_ H]] _]. exact H. Qed.
+
+  Lemma iter_nodup t : pre_inv t -> NoDup (map fst (t_iter t)).
+  Proof. intros H. apply UQ_NoDup. apply inv_uq. assumption. Qed.
+
+  Lemma nslots0_iter t : nslots t = 0 -> t_iter t = [].
+  Proof.
+    unfold TableModel.nslots, TableModel.t_iter. intros H. apply length_zero_iff_nil in H. rewrite H. reflexivity.
+  Qed.
+
+  Lemma R_exists t : pre_inv t -> R t (t_iter t).
+  Proof. intros H. split; [apply iter_nodup; assumption|tauto]. Qed.
+
+  Lemma R_perm t m : pre_inv t -> R t m -> Permutation (t_iter t) m.
+  Proof.
+    intros Hi [Hnd Hin]. apply NoDup_Permutation; [| |exact Hin].
+    - apply NoDup_map_inv with (f := fst). apply iter_nodup. assumption.
+    - apply NoDup_map_inv with (f := fst). assumption.
+  Qed.
+
+  Lemma R_len t m : pre_inv t -> R t m -> nitems t = length m.
+  Proof.
+    intros Hi Hr. pose proof (R_perm t m Hi Hr) as Hp. apply Permutation_length in Hp.
+    destruct Hi as [_ Hn]. rewrite Hn. exact Hp.
+  Qed.
+
+  Lemma R_nil t m : t_iter t = [] -> R t m -> m = [].
+  Proof.
+    intros Hnil [_ Hin]. destruct m as [|e m]; [reflexivity|].
+    exfalso. specialize (Hin e). rewrite Hnil in Hin. apply Hin. left. reflexivity.
+  Qed.
+
+  (* ---------------------------------------------------------------- lookup *)
+  Lemma lookup_spec t k : t_inv t ->
+    exists r, t_lookup t k = Some r /\
+      match r with
+      | Some e => In e (t_iter t) /\ fst e = k
+      | None => forall e, In e (t_iter t) -> fst e <> k
+      end.
+  Proof.
+    intros [[Hc Hn] Hload]. unfold TableModel.t_lookup.
+    destruct (Nat.eqb_spec (nslots t) 0) as [H0|H0].
+    - exists None. split; [reflexivity|]. rewrite (nslots0_iter t H0). intros e [].
+    - destruct (find_spec K entry keq fst keq_spec (hmn (nslots t)) (slots t) k Hc
+                  (home_lt k (nslots t) ltac:(lia))) as [r [Hf Hr]].
+      unfold rh_find. unfold hmn in Hf at 1. unfold TableModel.nslots in *. rewrite Hf.
+      destruct r as [i|].
+      + destruct Hr as [e [Hat Hk]]. rewrite Hat. exists (Some e). split; [reflexivity|].
+        split; [|exact Hk]. apply iter_holds. exists i, (hmn (length (slots t)) k). exact Hat.
+      + exists None. split; [reflexivity|]. intros e He. apply iter_holds in He.
+        destruct He as [a [g Ha]]. eapply Hr; eauto.
+  Qed.
+
+  Lemma lookup_refines t m k : t_inv t -> R t m ->
+    t_lookup t k = Some (match a_get m k with Some v => Some (k, v) | None => None end).
+  Proof.
+    intros Hi [Hnd Hin]. destruct (lookup_spec t k Hi) as [r [Hl Hr]]. rewrite Hl. f_equal.
+    destruct r as [[k' v]|].
+    - destruct Hr as [He Hk]. simpl in Hk. subst k'. apply Hin in He.
+      apply (a_get_some K V keq keq_spec m k v Hnd) in He. rewrite He. reflexivity.
+    - destruct (a_get m k) as [v|] eqn:Hg; [|reflexivity]. exfalso.
+      apply (a_get_some K V keq keq_spec m k v Hnd) in Hg. apply Hin in Hg. apply (Hr _ Hg). reflexivity.
+  Qed.
+
+  (* ---------------------------------------------------------------- Table_Set_Move *)
+  Lemma set_move_spec t k v : pre_inv t -> nitems t < nslots t ->
+    exists t1, set_move t k v = Some t1 /\ pre_inv t1 /\ nslots t1 = nslots t /\
+      (forall e, In e (t_iter t1) <-> e = (k, v) \/ (In e (t_iter t) /\ fst e <> k)) /\
+      nitems t1 <= S (nitems t).
+  Proof.
+    intros [Hc Hn] Hload.
+    assert (Hh0 : hmn (nslots t) (fst (k, v)) < length (slots t)) by (apply home_lt; unfold TableModel.nslots in *; lia).
+    assert (Hocc : occupied (slots t) < length (slots t)) by (unfold TableModel.nslots in Hload; lia).
+    destruct (insert_spec K entry keq fst swap new_wins keq_spec swap_le swap_ge
+                ltac:(intros e c H; exact eq_refl) (hmn (nslots t)) (slots t) (k, v) Hc swap_strict Hh0 Hocc)
+      as [l' [fresh [newe [Hins [Hc' [Hlen [Hh [Hk [Hfr Hnf]]]]]]]]].
+    assert (Hnew : newe = (k, v)).
+    { destruct fresh; [destruct (Hfr eq_refl) as [_ [H _]]; exact H|].
+      destruct (Hnf eq_refl) as [[eold [_ [_ H]]] _]. exact H. }
+    subst newe. simpl in Hins, Hh.
+    exists (mkT l' (if fresh then S (nitems t) else nitems t)).
+    split.
+    { unfold TableModel.set_move, rh_insert. unfold hmn in Hins. rewrite Hins. reflexivity. }
+    split; [|split; [exact Hlen|split]].
+    - split; simpl.
+      + apply (core_n (nslots t)); [symmetry; exact Hlen|exact Hc'].
+      + destruct fresh; [destruct (Hfr eq_refl) as [_ [_ H]]|destruct (Hnf eq_refl) as [_ H]]; lia.
+    - intros e. rewrite !iter_holds. simpl. apply Hh.
+    - simpl. destruct fresh; lia.
+  Qed.
+
+  (* ---------------------------------------------------------------- Table_Rehash *)
+  Lemma t_rehash_spec t n : UQ K entry fst (slots t) -> occupied (slots t) < n ->
+    exists t2, t_rehash t n = Some t2 /\ t_inv t2 /\ nslots t2 = n /\
+      (forall e, In e (t_iter t2) <-> In e (t_iter t)) /\ nitems t2 = occupied (slots t).
+  Proof.
+    intros Huq Hocc.
+    assert (Hho : forall k, home k n = hmn n k) by reflexivity.
+    assert (Hhm : forall k, hmn n k < n) by (intros k; apply home_lt; lia).
+    assert (Hle : occupied (slots t) <= n) by lia.
+    destruct (rehash_spec K entry keq fst swap new_wins keq_spec swap_le swap_ge (hmn n) home (slots t) n
+                Huq Hho Hhm Hle)
+      as [l' [Hr [Hc' [Hlen [Hh Ho]]]]].
+    exists (mkT l' (occupied l')). split.
+    { unfold TableModel.t_rehash, rh_rehash. rewrite Hr. reflexivity. }
+    split; [|split; [exact Hlen|split]].
+    - split; [split|]; simpl.
+      + apply (core_n n); [symmetry; exact Hlen|exact Hc'].
+      + reflexivity.
+      + left. change (occupied l' < length l'). lia.
+    - intros e. rewrite !iter_holds. simpl. apply Hh.
+    - simpl. exact Ho.
+  Qed.
+
+  Lemma resize_more_spec t : pre_inv t ->
+    exists t2, resize_more t = Some t2 /\ t_inv t2 /\
+      (forall e, In e (t_iter t2) <-> In e (t_iter t)) /\ nitems t2 = nitems t.
+  Proof.
+    intros Hp. pose proof Hp as [Hc Hn]. unfold TableModel.resize_more.
+    pose proof (ideal_gt (nitems t)) as Hid. fold ideal in Hid.
+    destruct (Nat.ltb_spec (nslots t) (ideal (nitems t))) as [Hlt|Hge].
+    - destruct (t_rehash_spec t (ideal (nitems t)) (inv_uq t Hp) ltac:(lia)) as [t2 [Hr [Hi [_ [Hit Hni]]]]].
+      exists t2. split; [exact Hr|]. split; [exact Hi|]. split; [exact Hit|lia].
+    - exists t. split; [reflexivity|]. split; [|split; [tauto|reflexivity]].
+      split; [exact Hp|]. left. lia.
+  Qed.
+
+  Lemma resize_less_spec t : pre_inv t -> nitems t < nslots t ->
+    exists t2, resize_less t = Some t2 /\ t_inv t2 /\
+      (forall e, In e (t_iter t2) <-> In e (t_iter t)) /\ nitems t2 = nitems t.
+  Proof.
+    intros Hp Hload. pose proof Hp as [Hc Hn]. unfold TableModel.resize_less.
+    pose proof (ideal_gt (nitems t)) as Hid. fold ideal in Hid.
+    destruct (Nat.ltb_spec (ideal (nitems t)) (nslots t)) as [Hlt|Hge].
+    - destruct (t_rehash_spec t (ideal (nitems t)) (inv_uq t Hp) ltac:(lia)) as [t2 [Hr [Hi [_ [Hit Hni]]]]].
+      exists t2. split; [exact Hr|]. split; [exact Hi|]. split; [exact Hit|lia].
+    - exists t. split; [reflexivity|]. split; [|split; [tauto|reflexivity]].
+      split; [exact Hp|]. left. lia.
+  Qed.
+End TP.
